@@ -346,7 +346,8 @@ def estimate_stats(voltages, stats_calc_num_samples=10000):
     if v_min == v_max:
         # Constant input has exactly zero variance, but the floating point mean can be
         # off by an ulp, which would leave a spurious sigma ~ 1e-16 * |mean| (or overflow)
-        return v_min, 0.0
+        # (as a float: an integer-typed minimum would make later 'x - mean' wrap around in the input's type)
+        return float(v_min), 0.0
     data_sigma = xp.std(voltages[:calc_len])
     data_mean = xp.mean(voltages[:calc_len])
     
